@@ -49,7 +49,7 @@ theorem send_completes {k : Kind} {sel : Sel} (s : State) (a : Nat) (m : WMsg) (
     sendable s.uwq = true ∧ (sockSend k s a m mode).2 = [Out.done a 0 none false] ++ (k.route s.pipes m).2 ∧
     (sockSend k s a m mode).1.pipes = (k.route s.pipes m).1 ∧ (sockSend k s a m mode).1.sent = s.sent ++ [m] := by
   have hg := h.uwq.rdr ho hc
-  refine ⟨by simp [sendable, hg], ?_⟩
+  refine ⟨by simp [sendable, hg, h.uwq.putq], ?_⟩
   unfold sockSend
   rw [if_neg (by simp [mustWaitPut, hg, h.uwq.putq])]
   rw [aioPut_reader s.uwq _ ⟨0, none⟩ [] hg h.uwq.putq]
